@@ -10,6 +10,7 @@ Directives (each on its own line, inside a template `.rs` file):
   //@sub OLD =====> NEW     (optional, repeatable) exact-text substitution inside the body; OLD must occur exactly
                          once (used to annotate a closure with its `ensures`, or to name a std constant); recorded in evidence
   //@subblock OLD / lines / //@endsub    the same with a multi-line replacement
+  //@prologue            (optional)   following lines (ghost lets / proof blocks) are placed at the start of the body
   //@tailproof           (optional)   following lines are placed in a proof block before the result is returned
   //@end
 
@@ -64,6 +65,44 @@ def desugar_compound(stmt):
     return f"{lead}{lhs} = {lhs} {m.group('op')} ({m.group('rhs').strip()})", True
 
 
+def desugar_break_value(text, ty=None):
+    """rule 11 (Verus has no `break <value>`): returns (new_text, number_of_breaks_rewritten)."""
+    total = 0
+    pos = 0
+    while True:
+        code = rsparse._scan_mask(text)
+        m = None
+        for mm in re.finditer(r'\bloop\s*\{', text[pos:]):
+            if code[pos + mm.start()]:
+                m = mm
+                break
+        if not m:
+            return text, total
+        start = pos + m.start()
+        ob = pos + m.end() - 1
+        cb = rsparse.match_brace(text, code, ob)
+        inner = text[ob + 1:cb]
+        icode = rsparse._scan_mask(inner)
+        if any(icode[x.start()] for x in re.finditer(r'\b(loop|while|for)\b', inner)):
+            raise GenError('break-with-value desugaring: nested loops are outside the supported subset')
+        out, last, n = [], 0, 0
+        for x in re.finditer(r'\bbreak\s+([^;{}]+);', inner):
+            if not icode[x.start()]:
+                continue
+            out.append(inner[last:x.start()])
+            out.append('{ __brk = Some(' + x.group(1).strip() + '); break; }')
+            last = x.end()
+            n += 1
+        out.append(inner[last:])
+        if n == 0:
+            pos = cb + 1
+            continue
+        new = '{ let mut __brk' + (f': Option<{ty}>' if ty else '') + ' = None; loop {' + ''.join(out) + '} __brk.unwrap() }'
+        text = text[:start] + new + text[cb + 1:]
+        total += n
+        pos = start + len(new)
+
+
 def name_return(sig, ret):
     m = re.search(r'->\s*(?!\()([^{]+?)\s*(where\b.*)?$', sig, re.S)
     if not m:
@@ -107,7 +146,38 @@ def build_fn(src_root, d, contract, hint_specs, tailproof, vacuity):
             sig = sig.replace(a, b)
     parts = rsparse.split_top_level(f['body'])
     subs_done = []
+    if d.get('breakvalue'):
+        # rule 11: `loop { .. break E; .. }` in value position -> `{ let mut __brk = None; loop { .. { __brk = Some(E); break; } .. } __brk.unwrap() }`
+        n_done = 0
+        for k, (t, sp) in enumerate(parts):
+            t2, n = desugar_break_value(t, None if d['breakvalue'] == '1' else d['breakvalue'])
+            parts[k] = (t2, sp)
+            n_done += n
+        if n_done == 0:
+            raise GenError(f"anchor lost: no `loop` with `break <value>` in {d['fn']}")
+        subs_done.append(f'break-with-value desugared ({n_done} break statements): loop {{ .. break E; .. }} =====> {{ let mut __brk = None; loop {{ .. {{ __brk = Some(E); break; }} .. }} __brk.unwrap() }}')
     for a_, b_ in d.get('_subs', []):
+        if isinstance(a_, tuple):
+            # span substitution: from the (unique) start text through the (unique) end text
+            st_, en_ = a_
+            hits = [k for k, (t, _s) in enumerate(parts) if st_ in t]
+            if len(hits) != 1 or parts[hits[0]][0].count(st_) != 1 or parts[hits[0]][0].count(en_) != 1:
+                raise GenError(f"anchor lost: span `{st_}` .. `{en_}` does not occur exactly once in {d['fn']}")
+            k = hits[0]
+            t = parts[k][0]
+            i0 = t.index(st_)
+            i1 = t.index(en_)
+            if i1 < i0:
+                raise GenError(f"anchor lost: span end `{en_}` precedes its start in {d['fn']}")
+            i1 += len(en_)
+            dropped = t[i0:i1]
+            nsha = hashlib.sha256(re.sub(r'\s+', ' ', rsparse.strip_comments(dropped)).strip().encode()).hexdigest()[:16]
+            want = d.get('_spansha', {}).get((st_, en_))
+            if want and want != nsha:
+                raise GenError(f"trusted span changed: the text `{st_}` .. `{en_}` in {d['fn']} (normalised sha256 {nsha}) is not the text the assumed contract was written for ({want})")
+            parts[k] = (t[:i0] + b_ + t[i1:], parts[k][1])
+            subs_done.append(f'span `{st_}` .. `{en_}` ({dropped.count(chr(10)) + 1} lines, normalised sha256 {nsha}, NOT verified here: replaced by a call with a trusted contract) =====> {b_.strip()}')
+            continue
         hits = [k for k, (t, _s) in enumerate(parts) if a_ in t]
         if len(hits) != 1 or parts[hits[0]][0].count(a_) != 1:
             raise GenError(f"anchor lost: `{a_}` does not occur exactly once in {d['fn']}")
@@ -174,6 +244,8 @@ def build_fn(src_root, d, contract, hint_specs, tailproof, vacuity):
     if contract.strip():
         out.append(contract.rstrip() + '\n')
     out.append('    {')
+    if d.get('_prologue'):
+        out.append('\n' + d['_prologue'])
     body = ';'.join(new_stmts)
     if new_stmts:
         body += ';'
@@ -228,6 +300,11 @@ def check_struct(src_root, d, following_lines):
     norm = lambda t: re.sub(r'\s+', '', re.sub(r'///[^\n]*', '', t)).rstrip(',').replace(',}', '}')
     repo = norm(m.group(0))
     tm = re.search(r'pub struct ' + re.escape(d['name']) + r'\b[^;{]*(\{[^}]*\}|;)', rsparse.strip_comments('\n'.join(following_lines)))
+    if tm and d.get('pubfields'):
+        # the template makes the (private) fields `pub` so that contracts may mention them; nothing else may differ
+        tnorm = norm(re.sub(r'(?m)^(\s*)pub\s+(\w+\s*:)', r'\1\2', tm.group(0)))
+        if tnorm == repo:
+            return
     if not tm or norm(tm.group(0)) != repo:
         raise GenError(f"struct {d['name']}: template declaration differs from {d['file']}: repo `{repo}` vs template `{norm(tm.group(0)) if tm else None}`")
 
@@ -293,6 +370,8 @@ def generate(template_path, src_root, out_path, vacuity=False):
                     mode = 'p'
                 elif s2.startswith('//@tailproof'):
                     mode = 't'
+                elif s2.startswith('//@prologue'):
+                    mode = 'g'
                 elif s2.startswith('//@hints'):
                     toks = s2[len('//@hints'):].strip().split(None, 1)
                     hint_specs.append((toks[0], parse_kv(toks[1] if len(toks) > 1 else '')))
@@ -304,6 +383,18 @@ def generate(template_path, src_root, out_path, vacuity=False):
                         buf_.append(lines[i])
                         i += 1
                     d.setdefault('_subs', []).append((a_, '\n'.join(buf_)))
+                elif s2.startswith('//@subspan '):
+                    a_, e_ = s2[len('//@subspan '):].split(' ...... ')
+                    msha = re.search(r'\s+sha=([0-9a-f]+)\s*$', e_)
+                    if msha:
+                        e_ = e_[:msha.start()]
+                        d.setdefault('_spansha', {})[(a_.strip(), e_.strip())] = msha.group(1)
+                    buf_ = []
+                    i += 1
+                    while lines[i].strip() != '//@endsub':
+                        buf_.append(lines[i])
+                        i += 1
+                    d.setdefault('_subs', []).append(((a_.strip(), e_.strip()), '\n'.join(buf_)))
                 elif s2.startswith('//@sub '):
                     a_, b_ = s2[len('//@sub '):].split(' =====> ')
                     d.setdefault('_subs', []).append((a_.strip(), b_.strip()))
@@ -313,6 +404,8 @@ def generate(template_path, src_root, out_path, vacuity=False):
                     d['_preproof'] = d.get('_preproof', '') + lines[i] + '\n'
                 elif mode == 't':
                     tailproof += lines[i] + '\n'
+                elif mode == 'g':
+                    d['_prologue'] = d.get('_prologue', '') + lines[i] + '\n'
                 i += 1
             if i >= len(lines):
                 raise GenError('template: //@extract without //@end')
